@@ -26,7 +26,7 @@ ASSUMPTIONS = ["model signatures vf/model/blssig.py (anchored by nine published 
                "the secret key behind every public key used is known by construction"]
 ENGINE = "hypothesis"
 TECHNIQUE = ("property-based testing (Hypothesis) over a constructed candidate union against an analytic oracle (uniqueness of BLS signatures) evaluated by an independent model; call-sequence sub-check for domain separation")
-ARMS = ("canonical", "other_key", "other_msg", "other_suite", "pop_confusion", "aug_no_prefix", "negated",
+ARMS = ("canonical", "other_key", "other_msg", "other_suite", "pop_confusion", "aug_no_prefix", "aug_prefix_confusion", "negated",
         "doubled", "plus_torsion", "identity", "bitflip", "reencoded", "random_point", "random_bytes")
 _REQ = [f"arm:{a}" for a in ARMS] + ["verdict:True", "verdict:False", "reached_pairing:False-verdict",
                                       "pop_confusion:sequence", "entry:PopVerify", "entry:Verify:basic", "entry:Verify:aug", "entry:Verify:pop",
@@ -164,6 +164,11 @@ def build(t):
     detail = ""
     flag_bit = False
     if arm == "canonical":
+        if b % 3 == 0 and entry == "Verify":
+            msg = blssig.sk_to_pk(sk) + msg[:b]            # a message that starts with the signer's own key bytes
+            dst, m = core_context(suite, entry, sk, msg)
+            S = B.g2_mul(blssig.hash_point(m, dst), sk)
+            detail = "message starts with the signer's public key"
         c = B.signature_bytes(S)
     elif arm == "other_key":
         sk2 = [sk - 1, sk + 1, R - sk, 1 + a % (R - 1)][b % 4]
@@ -194,6 +199,18 @@ def build(t):
         suite, entry = "aug", "Verify"
         detail = "aug-suite signature over the bare message"
         c = B.signature_bytes(blssig.core_sign_point(sk, msg, blssig.DST["aug"]))
+    elif arm == "aug_prefix_confusion":
+        # messages m and pk || m are DIFFERENT messages; the augmentation suite hashes pk || m and
+        # pk || pk || m respectively.  Offer the signature of the one for the other, both ways.
+        suite, entry = "aug", "Verify"
+        pk = blssig.sk_to_pk(sk)
+        if b % 2:
+            detail = "signature of m offered for the message pk || m"
+            c = blssig.sign("aug", sk, msg)
+            msg = pk + msg
+        else:
+            detail = "signature of pk || m offered for the message m"
+            c = blssig.sign("aug", sk, pk + msg)
     elif arm == "negated":
         c = B.signature_bytes(BLS.neg("G2", S))
     elif arm == "doubled":
